@@ -253,9 +253,18 @@ func (v *SemVer) Version() semver.Version {
 
 func (v *SemVer) Equals(o interface{}, g px.Guard) bool {
 	if ov, ok := o.(*SemVer); ok {
-		return v.Version().Equals(ov.Version())
+		return versionEquals(v.Version(), ov.Version())
 	}
 	return false
+}
+
+// versionEquals compares two versions either of which can be absent (the version of a TypeSet that is not yet
+// initialized, which String and ToKey write as 0.0.0-): an absent version is equal to an absent version only
+func versionEquals(a, b semver.Version) bool {
+	if a == nil || b == nil {
+		return a == nil && b == nil
+	}
+	return a.Equals(b)
 }
 
 func (v *SemVer) Reflect(c px.Context) reflect.Value {
